@@ -865,6 +865,10 @@ Hdupdd(int32  file_id, /* IN: File ID the tag/refs are in */
     if ((new_dd = HTPcreate(file_rec, tag, ref)) == FAIL)
         HGOTO_ERROR(DFE_DUPDD, FAIL);
 
+    /* keep the file's highest ref current, so Hnewref never hands this ref out */
+    if (ref > file_rec->maxref)
+        file_rec->maxref = ref;
+
     /* Retrieve the old offset & length */
     if (HTPinquire(old_dd, NULL, NULL, &old_off, &old_len) == FAIL)
         HGOTO_ERROR(DFE_INTERNAL, FAIL);
